@@ -84,7 +84,13 @@ struct RunOut {
     joined: bool,
     fulls: usize,
     stage_panicked: bool,
+    /// the consumer really went away before the stream ended
+    dropped_early: bool,
+    /// endless producer: messages accepted by the first link / the producer saw the disconnect
+    produced: usize,
+    prod_saw_err: bool,
 }
+const ENDLESS_CAP: usize = 50_000;
 
 fn run_pipeline(c: &Case, msgs: &[DltMessage], bounded: bool, paced: bool) -> RunOut {
     let l = Links { progress: Arc::new(AtomicUsize::new(0)), fulls: Arc::new(AtomicUsize::new(0)) };
@@ -100,16 +106,44 @@ fn run_pipeline(c: &Case, msgs: &[DltMessage], bounded: bool, paced: bool) -> Ru
     let stalls = |p: &Vec<(u16, u8)>| -> Vec<(usize, u64)> { p.iter().map(|(pos, ms)| ((*pos as usize * (n + 1)) >> 16, *ms as u64 % 31)).collect() };
     let ps = if paced { stalls(&c.pace_prod) } else { vec![] };
     let cs = if paced { stalls(&c.pace_cons) } else { vec![] };
+    // when the consumer is going to disappear the source does not end by itself (live tracing): the stream is
+    // repeated with advancing clocks, so the stages can only terminate because the disconnect propagates
+    // (not with the filter stage: a filter that lets nothing pass never sends and cannot notice the disconnect)
+    let endless = paced && c.drop_after.is_some() && n > 0 && !c.filter;
+    let produced = Arc::new(AtomicUsize::new(0));
+    let prod_saw_err = Arc::new(std::sync::atomic::AtomicBool::new(false));
+    let (produced2, prod_saw_err2) = (produced.clone(), prod_saw_err.clone());
     let prod = std::thread::spawn(move || {
-        for (i, m) in input.into_iter().enumerate() {
-            for (p, ms) in &ps {
-                if *p == i {
-                    std::thread::sleep(Duration::from_millis(*ms));
+        let span = input.iter().map(|m| m.reception_time_us).max().unwrap_or(0) - input.iter().map(|m| m.reception_time_us).min().unwrap_or(0) + S;
+        let mut round = 0u64;
+        'outer: loop {
+            for (i, m) in input.iter().enumerate() {
+                let mut m = m.clone();
+                if round == 0 {
+                    for (p, ms) in &ps {
+                        if *p == i {
+                            std::thread::sleep(Duration::from_millis(*ms));
+                        }
+                    }
+                } else {
+                    m.index = (round as usize * input.len() + i) as u32;
+                    m.reception_time_us += round * span;
+                    if m.timestamp_dms != 0 {
+                        m.timestamp_dms = m.timestamp_dms.wrapping_add((round * span / 100) as u32);
+                    }
+                }
+                if s0(m).is_err() {
+                    prod_saw_err2.store(true, Ordering::Relaxed);
+                    break 'outer;
+                }
+                if produced2.fetch_add(1, Ordering::Relaxed) + 1 >= ENDLESS_CAP {
+                    break 'outer;
                 }
             }
-            if s0(m).is_err() {
+            if !endless {
                 break;
             }
+            round += 1;
         }
     });
     let (wtx, wrx) = channel();
@@ -160,9 +194,11 @@ fn run_pipeline(c: &Case, msgs: &[DltMessage], bounded: bool, paced: bool) -> Ru
     });
     let drop_after = if paced { c.drop_after.map(|d| (d as usize * (n + 1)) >> 16) } else { None };
     let mut out = vec![];
+    let mut dropped_early = false;
     loop {
         if let Some(k) = drop_after {
             if out.len() >= k {
+                dropped_early = true;
                 break;
             }
         }
@@ -209,7 +245,7 @@ fn run_pipeline(c: &Case, msgs: &[DltMessage], bounded: bool, paced: bool) -> Ru
     if _w.is_some() {
         read_table(&lcs_r, false, &mut res);
     }
-    RunOut { out, table: res.table, joined, fulls: l.fulls.load(Ordering::Relaxed), stage_panicked }
+    RunOut { out, table: res.table, joined, fulls: l.fulls.load(Ordering::Relaxed), stage_panicked, dropped_early, produced: produced.load(Ordering::Relaxed), prod_saw_err: prod_saw_err.load(Ordering::Relaxed) }
 }
 
 fn norm_ids(out: &[DltMessage]) -> Vec<(u32, usize)> {
@@ -259,12 +295,16 @@ fn check(c: &Case, rep: &mut Rep) -> Result<(), String> {
     ensure!(reference.joined && !reference.stage_panicked, "reference pipeline (unbounded channels) did not terminate regularly");
     let r = run_pipeline(c, &msgs, true, true);
     rep.label_if(r.fulls > 0, "back_pressure");
-    rep.label_if(c.drop_after.is_some(), "consumer_dropped");
+    rep.label_if(r.dropped_early, "consumer_dropped");
     rep.label_if(c.sort, "sorted");
     rep.label_if(small, "capacity_0_or_1");
     rep.nontrivial = r.fulls > 0;
     ensure!(r.joined, "stage threads still blocked 15 s after the consumer {} (capacities {:?})", if c.drop_after.is_some() { "disappeared" } else { "finished" }, c.caps.iter().map(|k| CAPS[*k as usize % 5]).collect::<Vec<_>>());
     if c.drop_after.is_some() {
+        // the source never ends by itself here: termination has to come from the disconnect
+        // (a filter stage that lets nothing pass never sends, so it cannot notice: only asserted without the filter stage)
+        ensure!(c.filter || r.prod_saw_err || r.produced < ENDLESS_CAP, "the stages consumed {} further messages after the consumer disappeared instead of terminating (the producer never saw the disconnect)", r.produced);
+        rep.label_if(r.prod_saw_err, "disconnect_reached_producer");
         return Ok(());
     }
     ensure!(!r.stage_panicked, "a stage thread panicked");
@@ -300,7 +340,7 @@ pub fn def(tier: Tier) -> PropertyDef {
         id: "C13",
         rule: "pipelines producer -> lifecycle detection -> [plugins] -> [time sort] -> [filter] -> consumer assembled from the public stage functions with the blocking-send helper on every link; per-link capacity from {0,1,2,7,64}; generated messy streams (<=60 messages when a capacity <= 1, else <= 300, optionally with an embedded file transfer); producer/consumer pacing scripts (stalls 0..30 ms at generated positions); optional early consumer drop; reference = same pipeline with unbounded channels; oracle: unsorted: identical sequence and lifecycle assignment, sorted: permutation, same final lifecycle table; after consumer drop every stage terminates (no progress on any link for 15 s while threads are alive = blocked). Non-trivial: at least one send hit a full channel.",
         assumptions: vec!["interleavings are sampled through capacities and pacing, not enumerated", "'blocked forever' is decided by absence of progress for 15 s (sleeps in the code are 10 ms); slow runs keep making progress and are never flagged"],
-        subs: vec![sub("bounded_pipelines", tier.pick(500, 20_000), case, check).rates(&[("back_pressure", 0.6), ("consumer_dropped", 0.15), ("capacity_0_or_1", 0.3)]).shrink_iters(80).slow().boxed()],
+        subs: vec![sub("bounded_pipelines", tier.pick(500, 20_000), case, check).rates(&[("back_pressure", 0.6), ("consumer_dropped", 0.12), ("disconnect_reached_producer", 0.12), ("capacity_0_or_1", 0.3)]).shrink_iters(80).slow().boxed()],
         workers: 16,
     }
 }
